@@ -23,6 +23,28 @@ def calls_named(P, f, name):
     return [(b, P.val_call(f, f.body, b)) for b, p, fr, t in P.calls(f) if p and common.last_seg(p) == name]
 
 
+def helper_closure(P, f):
+    """f and the private free functions of bignumber it (transitively) calls: a parser split into helpers is one parser."""
+    out, todo = [f], [f]
+    while todo:
+        g = todo.pop()
+        for b, p, fr, t in P.calls(g):
+            h = (P.fn(p) or P.fn(generic_path(p))) if p else None
+            if h is not None and h.crate == "bignumber" and h.body is not None and h.kind == "fn" and h.impl_trait is None and not h.derived and \
+                    "::tests::" not in h.path and h.path not in [x.path for x in out]:
+                out.append(h)
+                todo.append(h)
+    return out
+
+
+def calls_named_deep(P, fns, name):
+    return [(b, v) for f in fns for (b, v) in calls_named(P, f, name)]
+
+
+def fn_of(P, v):
+    return P.fn(str(v[1]).split("#")[0])
+
+
 def run(ctx):
     P = ctx.P
     t1 = ctx.inst("C18.T1", "one scale in renderer and parser: pad width == max fractional digits == log10(DECIMAL_FRACTIONAL) == 18; radix 10; split by / and % of the constant the parser multiplies by; same separator; pad char == trimmed char", floor=7)
@@ -86,22 +108,25 @@ def run(ctx):
         t1.site("Display: trailing '%s' trimmed (== pad char)" % pad_char)
     # both renderings of whole / fractional go through U256's Display (radix 10 axiom): to_string of the U256 quotient / remainder
     # ---- parser ------------------------------------------------------------------------------------------
-    spl = [v for b, v in calls_named(P, pars, "split")]
+    PF = helper_closure(P, pars)
+    spl = [v for b, v in calls_named_deep(P, PF, "split")]
     psep = spl[0][4][1][2] if len(spl) == 1 and spl[0][4][1][0] == "const" else None
     if dsep is None or psep is None or dsep != psep:
         t1.fail("C18.T1:separator", pars.path, pars.span, "renderer separator %r differs from parser separator %r" % (dsep, psep))
     else:
         t1.site("separator %r in both" % chr(dsep))
-    cs = [v for b, v in calls_named(P, pars, "checked_sub")]
+    cs = [v for b, v in calls_named_deep(P, PF, "checked_sub")]
     pmax = None
+    lens = []
     if len(cs) == 1 and cs[0][4][0][0] == "const":
         lens = [y for y in common.walk(cs[0][4][1]) if y[0] == "call" and isinstance(y[3], str) and common.last_seg(y[3]) == "len"]
         if lens:
             pmax = cs[0][4][0][2]
+    BF = fn_of(P, cs[0]) if len(cs) == 1 else pars          # the function holding the bound check (the parser or one of its helpers)
     if pmax is None:
         t1.fail("C18.T1:parser-max", pars.path, pars.span, "parser does not bound the fractional digits by `MAX.checked_sub(len(fraction))`: unrecognised-idiom")
     elif pmax != lg:
-        t1.fail("C18.T1:parser-width", pars.path, common.span_of_block_term(pars, cs[0][2]), "parser accepts up to %d fractional digits but the scale is 10^%d" % (pmax, lg))
+        t1.fail("C18.T1:parser-width", BF.path, common.span_of_block_term(BF, cs[0][2]), "parser accepts up to %d fractional digits but the scale is 10^%d" % (pmax, lg))
     else:
         t1.site("FromStr: at most %d fractional digits (checked_sub => error beyond)" % pmax)
     # the digit bound guards EVERY accepted numeral with a fractional part: each success exit reachable after the
@@ -118,30 +143,40 @@ def run(ctx):
         def same_elem(a, b_):
             return shape(a) == shape(b_)
         frac_elem = lens[0][4][0]
-        fparses = [(b, v) for b, v in calls_named(P, pars, "from_dec_str") if same_elem(v[4][0], frac_elem)]
+        fparses = [(b, v) for b, v in calls_named(P, BF, "from_dec_str") if same_elem(v[4][0], frac_elem)]
 
         def passed_bound(b2):
             """b2 is only reached when the bound check produced a value (`?` / match Some / if let Some)."""
-            for c in common.control_conditions(P, pars, b2):
+            for c in common.control_conditions(P, BF, b2, False):
                 cd = c["cond"]
                 if cd[0] == "discr" and set(c["allowed"]) <= {"Some", "Continue", "Ok"} and cs[0] in list(common.walk(cd[1])):
                     return True
             return False
         if not fparses:
-            t1.fail("C18.T1:parser-bound-shape", pars.path, pars.span, "cannot relate the digit bound to the parse of the fractional part: unrecognised-idiom")
+            t1.fail("C18.T1:parser-bound-shape", BF.path, BF.span, "cannot relate the digit bound to the parse of the fractional part: unrecognised-idiom")
         else:
             bad = []
             for fb, fv in fparses:
-                reach = pars.body.reachable_from(fb)
-                for (b2, i2, cls2, v2) in common.ok_exit_blocks(P, pars):
+                reach = BF.body.reachable_from(fb)
+                for (b2, i2, cls2, v2) in common.ok_exit_blocks(P, BF):
                     if b2 in reach and not passed_bound(b2):
                         bad.append(b2)
+            if BF.path != pars.path:
+                # the helper's verdict must reach the parser's result: its call is inspected and a failure ends the parse
+                hcalls = [b for f_ in PF for b, p_, fr_, t_ in P.calls(f_) if p_ and generic_path(p_) == BF.path and f_.path != BF.path]
+                for hb in hcalls:
+                    hf_ = [f_ for f_ in PF if any(b == hb and p_ and generic_path(p_) == BF.path for b, p_, fr_, t_ in P.calls(f_))][0]
+                    pg_ = common.propagated(P, hf_, hb)
+                    if pg_ is None or not common.fail_edge_only_errors(P, hf_, pg_[2])[0]:
+                        t1.fail("C18.T1:parser-bound-dropped", hf_.path, common.span_of_block_term(hf_, hb), "the result of %s (which holds the digit bound) is not propagated" % BF.path)
+                if len(hcalls) != 1:
+                    t1.fail("C18.T1:parser-bound-shape", BF.path, BF.span, "the helper holding the digit bound is called %d times: unrecognised-idiom" % len(hcalls))
             if bad:
-                t1.fail("C18.T1:parser-bound-bypass", pars.path, common.span_of_block_term(pars, bad[0]),
+                t1.fail("C18.T1:parser-bound-bypass", BF.path, common.span_of_block_term(BF, bad[0]),
                         "a numeral with a fractional part is accepted on a path that does not pass the %d-digit bound check (early return): strings with more than %d fractional digits can parse" % (pmax, pmax))
             else:
                 t1.site("FromStr: every success after parsing the fractional part passes the digit bound")
-    pows = [v for b, v in calls_named(P, pars, "pow")]
+    pows = [v for b, v in calls_named_deep(P, PF, "pow")]
     radix = None
     if len(pows) == 1:
         base = pows[0][4][0]
@@ -151,13 +186,14 @@ def run(ctx):
             radix = base[2]
         exp_ok = cs and cs[0] in list(common.walk(pows[0][4][1]))
         if not exp_ok:
-            t1.fail("C18.T1:parser-exponent", pars.path, common.span_of_block_term(pars, pows[0][2]), "fraction is not scaled by RADIX^(MAX - len(fraction))")
+            t1.fail("C18.T1:parser-exponent", fn_of(P, pows[0]).path, common.span_of_block_term(fn_of(P, pows[0]), pows[0][2]), "fraction is not scaled by RADIX^(MAX - len(fraction))")
     if radix != 10:
         t1.fail("C18.T1:radix", pars.path, pars.span, "parser scales the fraction by powers of %s, expected 10" % radix)
     else:
         t1.site("FromStr: fraction * 10^(18 - len)")
     # through private helpers: look at the (inlined) result values
-    inl_exits = [(b, cls, common.inline_helpers(P, v)) for (b, i, cls, v) in common.exit_sites(P, pars)]
+    from .. import selection
+    inl_exits = [(b, cls, selection.resolve(common.inline_helpers(P, v))) for (b, i, cls, v) in common.exit_sites(P, pars)]
     muls, fdecs = [], []
     for b, cls, v in inl_exits:
         for y in common.walk(v):
@@ -180,7 +216,14 @@ def run(ctx):
                 okv = True
             if inner[0] == "call" and common.last_seg(inner[3]) == "add" and "U256" in inner[3]:
                 parts = list(inner[4])
-                if any(p_ in whole_muls for p_ in parts) and any(p_[0] == "call" and common.last_seg(p_[3]) == "mul" and pows and p_[4][1] == pows[0] for p_ in parts):
+                def unwrap(x):
+                    while x[0] == "proj" or (x[0] == "agg" and x[1] == "adt" and len(x[3]) == 1 and re.search(r"(Continue|Ok)$", str(x[2]))):
+                        x = x[1] if x[0] == "proj" else x[3][0][1]
+                    return x
+                parts = [unwrap(p_) for p_ in parts]
+                if any(p_ in whole_muls for p_ in parts) and any(p_[0] == "call" and common.last_seg(p_[3]) == "mul" and pows and
+                                                                 (p_[4][1] == pows[0] or (p_[4][1][0] == "call" and isinstance(p_[4][1][3], str) and common.last_seg(p_[4][1][3]) == "pow" and len(pows) == 1))
+                                                                 for p_ in parts):
                     okv = True
             if not okv:
                 t1.fail("C18.T1:parser-value", pars.path, common.span_of_block_term(pars, b), "parser returns %s, expected whole*SCALE or whole*SCALE + fraction*10^(18-len)" % ctx.show(inner, 4)[:200])
